@@ -277,6 +277,20 @@ Qed.
 Lemma enc_ikv_pos kv : 1 <= len (enc_ikv kv).
 Proof. unfold enc_ikv. rewrite len_app, be_len. lia. Qed.
 
+(* ---------- the section lemmas at the two entry readers ---------- *)
+Definition str_section_fwd :=
+  section_fwd rd_str_entry enc_kv skv_ok str_fwd str_bwd str_prog str_safe enc_kv_pos.
+Definition str_section_bwd :=
+  section_bwd rd_str_entry enc_kv skv_ok str_fwd str_bwd str_prog str_safe.
+Definition str_section_total :=
+  section_total rd_str_entry enc_kv skv_ok str_fwd str_bwd str_prog str_safe.
+Definition int_section_fwd :=
+  section_fwd rd_int_entry enc_ikv ikv_ok int_fwd int_bwd int_prog int_safe enc_ikv_pos.
+Definition int_section_bwd :=
+  section_bwd rd_int_entry enc_ikv ikv_ok int_fwd int_bwd int_prog int_safe.
+Definition int_section_total :=
+  section_total rd_int_entry enc_ikv ikv_ok int_fwd int_bwd int_prog int_safe.
+
 (* ---------- readKVInfo ---------- *)
 Lemma read_kv_info_eq f buf idx im sm :
   read_kv_info (S f) buf idx im sm =
@@ -285,11 +299,13 @@ Lemma read_kv_info_eq f buf idx im sm :
   | id :: _ =>
     if id =? 0 then read_kv_info f buf (idx + 1) im sm
     else if id =? 1 then
-      do (idx2, sm') <- read_section rd_str_entry buf (idx + 1) sm; read_kv_info f buf idx2 im sm'
+      do (idx2, sm') <- read_section rd_str_entry buf (idx + 1) (made sm);
+      read_kv_info f buf idx2 im (Some sm')
     else if id =? 16 then
-      do (idx2, im') <- read_section rd_int_entry buf (idx + 1) im; read_kv_info f buf idx2 im' sm
+      do (idx2, im') <- read_section rd_int_entry buf (idx + 1) (made im);
+      read_kv_info f buf idx2 (Some im') sm
     else if id =? 17 then
-      do (idx2, sm') <- read_acl buf (idx + 1) sm; read_kv_info f buf idx2 im sm'
+      do (idx2, sm') <- read_acl buf (idx + 1) (made sm); read_kv_info f buf idx2 im (Some sm')
     else Err e_infoid
   end.
 Proof.
@@ -299,34 +315,146 @@ Qed.
 Lemma enc_secs_cons s secs : enc_secs (s :: secs) = enc_sec s ++ enc_secs secs.
 Proof. reflexivity. Qed.
 
+Lemma enc_secs_app a b : enc_secs (a ++ b) = enc_secs a ++ enc_secs b.
+Proof. unfold enc_secs. rewrite map_app, concat_app. reflexivity. Qed.
+
 Lemma interp_from_cons m s secs : interp_from m (s :: secs) = interp_from (interp_step m s) secs.
 Proof. reflexivity. Qed.
 
+(* the model's accumulation: like [interp_step], on maps that may still be nil *)
+Definition ostep (m : option (list (N * bytes)) * option (list (bytes * bytes))) (s : sec) :=
+  match s with
+  | Pad => m
+  | KV l => (fst m, Some (rev l ++ made (snd m)))
+  | IntKV l => (Some (rev l ++ made (fst m)), snd m)
+  | ACL tok => (fst m, Some ((gdpr, tok) :: made (snd m)))
+  end.
+Definition ointerp_from m (secs : list sec) := fold_left ostep secs m.
+
+Lemma ointerp_from_cons m s secs : ointerp_from m (s :: secs) = ointerp_from (ostep m s) secs.
+Proof. reflexivity. Qed.
+
+Definition is_some {A} (o : option A) : bool := match o with Some _ => true | None => false end.
+
+Lemma ointerp_from_spec secs : forall im sm,
+    ointerp_from (im, sm) secs =
+    (if is_some im || existsb is_intsec secs
+     then Some (fst (interp_from (made im, made sm) secs)) else None,
+     if is_some sm || existsb is_strsec secs
+     then Some (snd (interp_from (made im, made sm) secs)) else None).
+Proof.
+  induction secs as [|s secs IH]; intros im sm.
+  - cbn [ointerp_from interp_from fold_left existsb fst snd]. rewrite !orb_false_r.
+    destruct im, sm; reflexivity.
+  - rewrite ointerp_from_cons, interp_from_cons.
+    destruct s as [|l|l|tok]; cbn [ostep interp_step fst snd existsb is_intsec is_strsec];
+      rewrite IH; cbn [made is_some orb]; rewrite ?orb_true_r; reflexivity.
+Qed.
+
+Lemma ointerp_spec secs : ointerp_from (None, None) secs = ointerp secs.
+Proof. rewrite ointerp_from_spec. reflexivity. Qed.
+
 Lemma kv_fwd secs : forall fuel buf idx im sm,
     secs_ok secs -> drop idx buf = enc_secs secs -> (length (enc_secs secs) < fuel)%nat ->
-    read_kv_info fuel buf idx im sm = Ok (interp_from (im, sm) secs).
+    read_kv_info fuel buf idx im sm = Ok (ointerp_from (im, sm) secs).
 Proof.
   induction secs as [|s secs IH]; intros fuel buf idx im sm Hok E Hf;
     (destruct fuel as [|f]; [lia|]); rewrite read_kv_info_eq.
   - cbn in E. rewrite E. reflexivity.
   - inversion Hok as [|? ? Hs Hrest]; subst.
-    rewrite enc_secs_cons in E, Hf. rewrite app_length in Hf. rewrite interp_from_cons.
+    rewrite enc_secs_cons in E, Hf. rewrite app_length in Hf. rewrite ointerp_from_cons.
     destruct s as [|l|l|tok]; cbn [enc_sec] in *.
     + cbn [app] in E. rewrite E. cbn [N.eqb]. apply drop_step in E.
       apply IH; auto. cbn [length] in Hf. lia.
     + destruct Hs as [Hl Hall]. rewrite <- app_assoc in E. cbn [app] in E. rewrite E.
       cbn [N.eqb Pos.eqb]. apply drop_step in E. rewrite <- app_assoc in E.
-      rewrite (section_fwd rd_str_entry enc_kv skv_ok str_fwd enc_kv_pos l buf (idx + 1) _ sm Hl Hall E).
+      rewrite (str_section_fwd l buf (idx + 1) _ (made sm) Hl Hall E).
       cbn [bind]. rewrite app_assoc in E. apply drop_app_step in E.
       apply IH; auto. cbn [length app] in Hf. rewrite !app_length in Hf. lia.
     + destruct Hs as [Hl Hall]. rewrite <- app_assoc in E. cbn [app] in E. rewrite E.
       cbn [N.eqb Pos.eqb]. apply drop_step in E. rewrite <- app_assoc in E.
-      rewrite (section_fwd rd_int_entry enc_ikv ikv_ok int_fwd enc_ikv_pos l buf (idx + 1) _ im Hl Hall E).
+      rewrite (int_section_fwd l buf (idx + 1) _ (made im) Hl Hall E).
       cbn [bind]. rewrite app_assoc in E. apply drop_app_step in E.
       apply IH; auto. cbn [length app] in Hf. rewrite !app_length in Hf. lia.
     + rewrite <- app_assoc in E. cbn [app] in E. rewrite E.
       cbn [N.eqb Pos.eqb]. apply drop_step in E. unfold read_acl.
       rewrite (read_str2_fwd _ _ _ _ Hs E). cbn [wrap_kv bind].
       apply drop_app_step in E. change gdpr_key with gdpr.
-      apply IH; auto. cbn [length app] in Hf. rewrite !app_length in Hf. lia.
+      apply IH; auto. cbn [length app] in Hf. lia.
+Qed.
+
+(* converse: readKVInfo succeeds only along a decomposition into complete sections *)
+Lemma kv_bwd fuel : forall buf idx im sm r,
+    wf buf -> read_kv_info fuel buf idx im sm = Ok r ->
+    exists secs, secs_ok secs /\ drop idx buf = enc_secs secs /\ r = ointerp_from (im, sm) secs.
+Proof.
+  induction fuel as [|f IH]; intros buf idx im sm r Hw; [discriminate|].
+  rewrite read_kv_info_eq. destruct (drop idx buf) as [|id rest] eqn:E.
+  - intros H. inversion H; subst. exists []. repeat split. constructor.
+  - pose proof (drop_step _ _ _ _ E) as E1.
+    destruct (N.eqb_spec id 0) as [->|_].
+    { intros H. destruct (IH _ _ _ _ _ Hw H) as (secs & Hok & Ed & Hr).
+      exists (Pad :: secs). repeat split.
+      - constructor; [exact I|exact Hok].
+      - rewrite enc_secs_cons. cbn [enc_sec app]. rewrite <- Ed, E1. reflexivity.
+      - exact Hr. }
+    destruct (N.eqb_spec id 1) as [->|_].
+    { destruct (read_section rd_str_entry buf (idx + 1) (made sm)) as [[idx2 sm']| | |] eqn:Es;
+        cbn [bind]; try discriminate.
+      intros H. destruct (str_section_bwd _ _ _ _ _ Hw Es) as (l & Hl & Hall & Hm & Ed & Hi).
+      destruct (IH _ _ _ _ _ Hw H) as (secs & Hok & Ed2 & Hr).
+      exists (KV l :: secs). repeat split.
+      - constructor; [split; assumption|exact Hok].
+      - rewrite enc_secs_cons. cbn [enc_sec]. rewrite <- Ed2, <- !app_assoc. cbn [app].
+        f_equal. rewrite <- E1. exact Ed.
+      - rewrite ointerp_from_cons. cbn [ostep fst snd]. rewrite <- Hm. exact Hr. }
+    destruct (N.eqb_spec id 16) as [->|_].
+    { destruct (read_section rd_int_entry buf (idx + 1) (made im)) as [[idx2 im']| | |] eqn:Es;
+        cbn [bind]; try discriminate.
+      intros H. destruct (int_section_bwd _ _ _ _ _ Hw Es) as (l & Hl & Hall & Hm & Ed & Hi).
+      destruct (IH _ _ _ _ _ Hw H) as (secs & Hok & Ed2 & Hr).
+      exists (IntKV l :: secs). repeat split.
+      - constructor; [split; assumption|exact Hok].
+      - rewrite enc_secs_cons. cbn [enc_sec]. rewrite <- Ed2, <- !app_assoc. cbn [app].
+        f_equal. rewrite <- E1. exact Ed.
+      - rewrite ointerp_from_cons. cbn [ostep fst snd]. rewrite <- Hm. exact Hr. }
+    destruct (N.eqb_spec id 17) as [->|_]; [|discriminate].
+    unfold read_acl.
+    destruct (read_str2 buf (idx + 1)) as [[tok n]| | |] eqn:Es; cbn [wrap_kv bind]; try discriminate.
+    intros H. destruct (read_str2_bwd _ _ _ _ Hw Es) as (Hs & Hn & Ed & _).
+    destruct (IH _ _ _ _ _ Hw H) as (secs & Hok & Ed2 & Hr).
+    exists (ACL tok :: secs). repeat split.
+    + constructor; [exact Hs|exact Hok].
+    + rewrite enc_secs_cons. cbn [enc_sec]. rewrite <- Ed2, <- !app_assoc. cbn [app].
+      f_equal. rewrite <- E1. exact Ed.
+    + rewrite ointerp_from_cons. cbn [ostep fst snd]. exact Hr.
+Qed.
+
+(* safety and termination for every buffer: only progress is used *)
+Lemma kv_total fuel : forall buf idx im sm,
+    idx <= len buf -> (N.to_nat (len buf - idx) < fuel)%nat ->
+    good (read_kv_info fuel buf idx im sm).
+Proof.
+  induction fuel as [|f IH]; intros buf idx im sm Hi Hf; [lia|].
+  rewrite read_kv_info_eq. destruct (drop idx buf) as [|id rest] eqn:E; [apply good_ok|].
+  pose proof (drop_lt_len _ _ _ _ E) as Hlt.
+  destruct (id =? 0); [apply IH; lia|].
+  destruct (id =? 1).
+  { destruct (str_section_total buf (idx + 1) (made sm) ltac:(lia)) as [[Hs Hnf] Hb].
+    destruct (read_section rd_str_entry buf (idx + 1) (made sm)) as [[idx2 sm']| | |] eqn:Es;
+      cbn [bind]; cbn in Hs; try contradiction.
+    - specialize (Hb _ _ eq_refl). apply IH; lia.
+    - apply good_err. intros ->. apply Hnf. reflexivity. }
+  destruct (id =? 16).
+  { destruct (int_section_total buf (idx + 1) (made im) ltac:(lia)) as [[Hs Hnf] Hb].
+    destruct (read_section rd_int_entry buf (idx + 1) (made im)) as [[idx2 im']| | |] eqn:Es;
+      cbn [bind]; cbn in Hs; try contradiction.
+    - specialize (Hb _ _ eq_refl). apply IH; lia.
+    - apply good_err. intros ->. apply Hnf. reflexivity. }
+  destruct (id =? 17); [|apply good_err; discriminate].
+  unfold read_acl. pose proof (read_str2_safe buf (idx + 1)) as [Hs _].
+  destruct (read_str2 buf (idx + 1)) as [[tok n]| | |] eqn:Es; cbn [wrap_kv bind]; cbn in Hs;
+    try contradiction.
+  - apply read_str2_prog in Es. apply IH; lia.
+  - apply good_err. discriminate.
 Qed.
